@@ -6,7 +6,7 @@
    on the real thread pool) by rig/checks/x09.py.  Unsafe = FALSE keeps the walks away from the datagram shapes on which
    the shipped callback writes outside its buffers (SR8; they are run as probes). *)
 EXTENDS SapRcvr, Json
-CONSTANTS Origins, NameIdx, Cts, Ccis, Ticks, MaxNow, MaxRc, Dev, Emit, Unsafe
+CONSTANTS Mode, Origins, NameIdx, Cts, Ccis, Times, MaxNow, MaxRc, Dev, Emit, Unsafe
 VARIABLES R, now, ev, bad
 vars == << R, now, ev, bad >>
 D(c, name) == IF c THEN {} ELSE {name}
@@ -15,7 +15,7 @@ FailPoints == {"none", "srcvr", "socket", "bind", "rcvbuf", "lowat", "pktinfo", 
 Base(o, s) == [shape |-> "full", n |-> 200, v |-> 1, a |-> 0, t |-> 0, e |-> 0, c |-> 0, auth |-> 0, hash |-> 1, mime |-> "sdp", sdp |-> "ok",
                o |-> o, s |-> s, mt |-> "video", mf |-> 4, mp |-> "RTP/AVP", port |-> 5004, cf |-> "ok", ad |-> 1]
 AddrLen(d) == IF d.a = 0 THEN 4 ELSE 16
-Shaped(d, shape) == [d EXCEPT !.shape = shape, !.n = CASE shape = "hdr3" -> 3 [] shape = "pay15" -> 4 + AddrLen(d) + d.auth + 15 [] shape = "big" -> 4096 [] OTHER -> d.n]
+Shaped(d, shape) == [d EXCEPT !.shape = shape, !.n = CASE shape = "hdr3" -> 3 [] shape = "pay15" -> 4 + AddrLen(d) + d.auth + 15 [] shape = "big" -> 4096 [] shape = "huge" -> 5000 [] OTHER -> d.n]
 SdpDefects == {"short", "nov0", "ctl", "badline", "dupo", "dups", "not", "noc", "nom", "dupv"}
 ConnBad == {"fields2", "nettype", "atypelen", "shortaddr", "atype", "badaddr", "fam-mismatch"}
 Variants(b) ==     \* every way of spoiling or decorating a good announcement, one field at a time
@@ -24,10 +24,10 @@ Variants(b) ==     \* every way of spoiling or decorating a good announcement, o
    [b EXCEPT !.t = 1], [b EXCEPT !.a = 1], [b EXCEPT !.auth = 4], [b EXCEPT !.mime = "other"], [b EXCEPT !.mime = "none"],
    [b EXCEPT !.mp = "udp"], [b EXCEPT !.mp = "RTP/SAVP", !.port = 6000], [b EXCEPT !.mp = "TCP"], [b EXCEPT !.mt = "audio", !.cf = "okttl", !.ad = 3]}
   \cup {[b EXCEPT !.sdp = x] : x \in SdpDefects} \cup {[b EXCEPT !.cf = x] : x \in ConnBad}
-DgramsMC ==
-  UNION {Variants(Base(o, 1)) : o \in {Origins[1]}}
-  \cup {Base(o, s) : o \in {Origins[i] : i \in 1..Len(Origins)}, s \in NameIdx}
-  \cup {[Base(o, 1) EXCEPT !.cf = "badaddr"] : o \in {Origins[i] : i \in 1..Len(Origins)}}
+OriginSet == {Origins[i] : i \in 1..Len(Origins)}
+DgramsMC ==        \* Mode "filter": every variant, one origin;  "cache": few datagram kinds, all origins
+  IF Mode = "filter" THEN Variants(Base(Origins[1], 1)) \cup {Base(Origins[1], s) : s \in NameIdx}
+  ELSE {Base(o, s) : o \in OriginSet, s \in NameIdx} \cup {[Base(o, 1) EXCEPT !.cf = "badaddr"] : o \in OriginSet}
 
 (* shapes on which the shipped callback leaves its buffers *)
 UnsafeDgram(S, d) ==
@@ -37,6 +37,9 @@ UnsafeDgram(S, d) ==
      /\ LET i == FindItem(S.dc, SapKey(d.o)) IN i # NoItem /\ S.rec[i].fl = 0 /\ Len(SapNames[d.s]) > S.rec[i].cap + 13
   \/ S.alive /\ S.dcnull /\ SapDrop(d, 0) = ""
 
+Grows(S, d) ==     \* an incomplete entry would be completed with a name longer than the one its record was allocated for
+  /\ S.alive /\ ~S.dcnull /\ SapDrop(d, 0) = "" /\ SapUnusable(d) = ""
+  /\ LET i == FindItem(S.dc, SapKey(d.o)) IN i # NoItem /\ S.rec[i].fl = 0 /\ Len(SapNames[d.s]) > S.rec[i].cap
 KeysOf(S) == {S.dc.it[s].key : s \in S.dc.live}
 ItemOf(S, k) == CHOOSE s \in S.dc.live : S.dc.it[s].key = k
 IgnorePost(S, d, rf, af, r) ==
@@ -65,6 +68,9 @@ CreatePost(S, fp, r) ==
   /\ (r.rc = 0 => r.R.alive /\ ~r.R.dcnull /\ r.R.dc.live = {} /\ r.R.fds = S.fds + 1)
   /\ (r.rc # 0 => ~r.R.alive /\ r.R.fds = S.fds)
 
+TimesSmall == << 1000, 1001, 1002, 2001, 2003 >>     \* the clock of the exhaustive models walks along this list
+OriginsOne == << 1 >>
+OriginsTwo == << 2, 3 >>            \* same bucket
 OriginsSmall == << 1, 2, 3 >>          \* 2 and 3 share a bucket
 OriginsAll == << 1, 2, 3, 4, 5, 6 >>
 Step(e, S2, v) == /\ R' = S2 /\ ev' = (IF Emit THEN e ELSE << >>) /\ bad' = bad \cup v
@@ -88,21 +94,21 @@ DoDestroy == R.alive /\ Step([op |-> "sap.destroy"], SapDestroy(R), {}) /\ UNCHA
 Next ==
   \/ \E ct \in Cts, cci \in Ccis, fp \in FailPoints : DoCreate(ct, cci, fp)
   \/ \E d \in DgramsMC : DoDgram(d, 0, 0)
-  \/ \E o \in {Origins[i] : i \in 1..Len(Origins)}, q \in 1..3 : DoDgram(Base(o, 1), IF q = 3 THEN 1 ELSE 0, IF q = 3 THEN 0 ELSE q)
+  \/ \E o \in OriginSet, q \in 1..3 : DoDgram(Base(o, 1), IF q = 3 THEN 1 ELSE 0, IF q = 3 THEN 0 ELSE q)
   \/ DoCbErr \/ DoDestroy
-  \/ \E dt \in Ticks : DoTick(dt)
+  \/ \E i \in 1..(Len(Times) - 1) : now = Times[i] /\ DoTick(Times[i + 1] - Times[i])
 Spec == Init /\ [][Next]_vars
 
 (* ---- random walks: ONE successor per step; a datagram is a good announcement with (often) one field spoiled *)
 Pick(seq) == seq[RandomElement(1..Len(seq))]
-RandBase ==
+RandBase(z) ==      \* z: any state-dependent value (keeps TLC from caching the random choice as a constant)
   [Base(Pick(Origins), Pick(<< 1, 1, 2, 2, 3, 4, 5, 6 >>)) EXCEPT
      !.a = Pick(<< 0, 0, 0, 1 >>), !.t = Pick(<< 0, 0, 0, 0, 1 >>), !.auth = Pick(<< 0, 0, 0, 4 >>), !.mime = Pick(<< "sdp", "sdp", "sdp", "other", "none" >>),
      !.mt = Pick(<< "video", "audio" >>), !.mp = Pick(<< "udp", "RTP/AVP", "RTP/SAVP", "TCP" >>), !.port = Pick(<< 5004, 6000, 1, 65535 >>),
      !.cf = Pick(<< "ok", "ok", "okttl" >>), !.ad = Pick(<< 1, 2 >>)]
 FixFam(d) == IF Pick(<< 0, 0, 1 >>) = 1 THEN [d EXCEPT !.ad = Pick(<< 3, 4 >>)] ELSE d
-RandDgram ==
-  LET b == FixFam(RandBase)  k == RandomElement(1..10) IN
+RandDgram(z) ==
+  LET b == FixFam(RandBase(z))  k == RandomElement(1..(10 + (0 * z))) IN
   IF k <= 6 THEN b
   ELSE Pick(<< Shaped(b, "hdr3"), Shaped(b, "pay15"), [b EXCEPT !.v = Pick(<< 0, 2, 3, 7 >>)], [b EXCEPT !.hash = 0], [b EXCEPT !.auth = 255],
                [b EXCEPT !.e = 1], [b EXCEPT !.c = 1], [b EXCEPT !.e = 1, !.c = 1], [b EXCEPT !.mt = Pick(<< "application", "text", "vide" >>)],
@@ -110,15 +116,17 @@ RandDgram ==
                [b EXCEPT !.sdp = Pick(<< "short", "nov0", "ctl", "badline", "dupo", "dups", "not", "noc", "nom", "dupv" >>)],
                [b EXCEPT !.cf = Pick(<< "fields2", "nettype", "atypelen", "shortaddr", "atype", "badaddr", "fam-mismatch" >>)],
                [b EXCEPT !.cf = Pick(<< "fields2", "nettype", "atypelen", "shortaddr", "atype", "badaddr", "fam-mismatch" >>)],
-               [b EXCEPT !.cf = "badaddr"] >>)
+               [b EXCEPT !.cf = "badaddr"] >> \o (IF Unsafe THEN << [b EXCEPT !.cf = "long"], Shaped(b, "big"), Shaped([b EXCEPT !.sdp = "nom"], "huge") >> ELSE << >>))
 Kinds == << "create", "dgram", "dgram", "dgram", "dgram", "dgram", "dgram", "dgram", "dgram", "dgram", "dgram", "dgram", "dgram", "cberr", "tick", "tick", "tick", "destroy" >>
-KindOK(kd) == CASE kd = "create" -> ~R.alive [] kd = "tick" -> now + 1 <= MaxNow [] OTHER -> R.alive
+KindOK(kd) == CASE kd = "create" -> ~R.alive [] kd = "tick" -> R.alive /\ now + 1 <= MaxNow [] OTHER -> R.alive
 SimNext ==
   \E x \in {RandomElement({y \in 1..Len(Kinds) : KindOK(Kinds[y])})} :
     CASE Kinds[x] = "create" -> \E fp \in {Pick(<< "none", "none", "none", "none", "none", "none", "none", "none", "srcvr", "socket", "bind", "rcvbuf", "lowat", "pktinfo", "task" >>)} :
                                    DoCreate(Pick(<< 0, 5, 30 >>), Pick(<< 0, 1, 1 >>), fp)
-      [] Kinds[x] = "dgram" -> \E d \in {RandDgram} : \E q \in {Pick(<< 0, 0, 0, 0, 0, 0, 0, 0, 0, 0, 1, 2, 3 >>)} :
-                                   IF Unsafe \/ ~UnsafeDgram(R, d) THEN DoDgram(d, IF q = 3 THEN 1 ELSE 0, IF q \in {1, 2} THEN q ELSE 0) ELSE DoCbErr
+      [] Kinds[x] = "dgram" -> \E d \in {RandDgram(TLCGet("level"))} : \E q \in {Pick(<< 0, 0, 0, 0, 0, 0, 0, 0, 0, 0, 1, 2, 3 >>)} :
+                                   IF Unsafe \/ ~UnsafeDgram(R, d)
+                                   THEN DoDgram(d, IF q = 3 THEN 1 ELSE 0, IF q \in {1, 2} /\ ~Grows(R, d) THEN q ELSE 0)   \* how a too small record is replaced is left open
+                                   ELSE DoCbErr
       [] Kinds[x] = "cberr" -> DoCbErr
       [] Kinds[x] = "tick" -> \E dt \in {Pick(<< 1, 1, 4, 6, 29, 1000, 1003 >>)} : IF now + dt <= MaxNow THEN DoTick(dt) ELSE DoTick(1)
       [] Kinds[x] = "destroy" -> DoDestroy
